@@ -70,9 +70,14 @@ fn main() {
     let start = Instant::now();
     let ex = match id.as_str() {
         "C02" => checks::c02::explore(&opts),
+        "C03" => checks::c03::explore(&opts),
         "C04" => checks::c04::explore(&opts),
         "C05" => checks::c05::explore(&opts),
         "C06" => checks::c06::explore(&opts),
+        "C07" => checks::c07::explore(&opts),
+        "C09" => checks::c09::explore(&opts),
+        "C13" => checks::c13::explore(&opts),
+        "C16" => checks::c16::explore(&opts),
         _ => usage(),
     };
     let mut fin = Finish::new(&opts, start, ex.local);
